@@ -147,9 +147,10 @@ type marks struct {
 }
 
 type probe struct {
-	id   int64
-	kind string
-	v    ssa.Value
+	id       int64
+	kind     string
+	v        ssa.Value
+	indirect bool // the points-to set of *v (Result.IndirectQueries[v]), as the dataflow layer's getIndirectPointer reads it
 }
 
 type csite struct {
@@ -158,7 +159,7 @@ type csite struct {
 }
 
 func isMarker(name string) bool {
-	return name == "cs" || name == "enter" || strings.HasPrefix(name, "probe") || strings.HasPrefix(name, "site")
+	return name == "cs" || name == "enter" || strings.HasPrefix(name, "probe") || strings.HasPrefix(name, "site") || strings.HasPrefix(name, "iobs")
 }
 
 func staticName(c *ssa.CallCommon, mainPkg *ssa.Package) string {
@@ -193,12 +194,14 @@ func scanMarks(fns []*ssa.Function, mainPkg *ssa.Package) *marks {
 					}
 				case strings.HasPrefix(name, "probe"):
 					if id, ok := constInt(c.Args[0]); ok {
-						m.probes = append(m.probes, probe{id, name[5:], c.Args[1]})
+						m.probes = append(m.probes, probe{id, name[5:], c.Args[1], false})
 					}
 				case strings.HasPrefix(name, "site"):
 					if id, ok := constInt(c.Args[0]); ok {
-						m.sites = append(m.sites, probe{id, name[4:], allocRoot(c.Args[1])})
+						m.sites = append(m.sites, probe{id, name[4:], allocRoot(c.Args[1]), false})
 					}
+				case strings.HasPrefix(name, "iobs"):
+					// observation of *p for the parameter p of accessor acc<N>: handled below
 				default:
 					if _, isB := c.Value.(*ssa.Builtin); isB {
 						continue
@@ -210,6 +213,26 @@ func scanMarks(fns []*ssa.Function, mainPkg *ssa.Package) *marks {
 				}
 			}
 		}
+	}
+	// call-free accessors acc<N>(p **T | *[]*T | *map..): indirect probe 900000+N on their first parameter
+	for _, f := range fns {
+		if f.Pkg != mainPkg || f.Parent() != nil || !strings.HasPrefix(f.Name(), "acc") || len(f.Params) == 0 {
+			continue
+		}
+		var n int64
+		if _, err := fmt.Sscanf(f.Name(), "acc%d", &n); err != nil {
+			continue
+		}
+		kind := "T"
+		if pt, ok := f.Params[0].Type().Underlying().(*types.Pointer); ok {
+			switch pt.Elem().Underlying().(type) {
+			case *types.Slice:
+				kind = "S"
+			case *types.Map:
+				kind = "M"
+			}
+		}
+		m.probes = append(m.probes, probe{900000 + n, kind, f.Params[0], true})
 	}
 	return m
 }
@@ -362,10 +385,27 @@ func main() {
 	for _, s := range m.sites {
 		fmt.Fprintf(w, "SITE %d %s %s\n", s.id, s.kind, valKey(s.v))
 	}
-	probeVal := map[int64]ssa.Value{}
+	probePtr := map[int64]*pointer.Pointer{}
 	for _, p := range m.probes {
-		probeVal[p.id] = p.v
-		if q, ok := ptr.Queries[p.v]; ok {
+		q, ok := ptr.Queries[p.v]
+		if p.indirect {
+			q, ok = ptr.IndirectQueries[p.v]
+		}
+		if ok {
+			qq := q
+			probePtr[p.id] = &qq
+		} else {
+			probePtr[p.id] = nil
+		}
+		if p.indirect {
+			if ok {
+				fmt.Fprintf(w, "PROBE %d %s *%s Q | %s\n", p.id, p.kind, valKey(p.v), strings.Join(labelsOf(q), " "))
+			} else {
+				fmt.Fprintf(w, "PROBE %d %s *%s NOQUERY |\n", p.id, p.kind, valKey(p.v))
+			}
+			continue
+		}
+		if ok {
 			fmt.Fprintf(w, "PROBE %d %s %s Q | %s\n", p.id, p.kind, valKey(p.v), strings.Join(labelsOf(q), " "))
 		} else {
 			fmt.Fprintf(w, "PROBE %d %s %s NOQUERY |\n", p.id, p.kind, valKey(p.v))
@@ -427,13 +467,11 @@ func main() {
 			if n, _ := fmt.Sscanf(sc.Text(), "%d %d", &a, &b); n != 2 {
 				continue
 			}
-			va, vb := probeVal[a], probeVal[b]
-			qa, oka := ptr.Queries[va]
-			qb, okb := ptr.Queries[vb]
+			qa, qb := probePtr[a], probePtr[b]
 			ans := "NOQUERY"
-			if va != nil && vb != nil && oka && okb {
+			if qa != nil && qb != nil {
 				ans = "0"
-				if qa.MayAlias(qb) {
+				if qa.MayAlias(*qb) {
 					ans = "1"
 				}
 			}
